@@ -54,16 +54,13 @@ Definition layout_strides (L : layout) (s : list Z) : list Z :=
 
 (* offset_type(shape_,strides_): row_major_offset_t stores both arguments,
    column_major_offset_t stores reverse(shape) and reverse(compute_strides(reverse(shape))).
-   With a clipped shape the column-major functor keeps its strides in a clipped type whose
-   bound is 1 (reverse() of the clipped stride tuple takes the element type of the last,
-   unit, stride): every stride is clamped to 1 — observed for tuple<clipped_size_t<3>,<4>>
-   and array<clipped_size_t<6>,2>, finding colmajor-clipped-offset-strides. *)
-Definition is_clipped (k : shape_kind) : bool := match k with SClipped _ => true | _ => false end.
-Definition offset_of (k : shape_kind) (L : layout) (s st : list Z) : list Z * list Z :=
+   (for a clipped shape the strides are kept in a plain index array, base_ndarray.hpp:91-110,
+   after "fix: column-major ndarray_t with a clipped shape addresses distinct indices to
+   distinct elements": the same values) *)
+Definition offset_of (L : layout) (s st : list Z) : list Z * list Z :=
   match L with
   | RowMajor => (s, st)
-  | ColMajor => (rev s, if is_clipped k then map (Z.min 1) (rev (compute_strides (rev s)))
-                        else rev (compute_strides (rev s)))
+  | ColMajor => (rev s, rev (compute_strides (rev s)))
   end.
 
 (* clipped-shape test performed BEFORE mutating (ndarray.hpp:99-109) *)
@@ -122,7 +119,7 @@ Definition init (k : kind) (L : layout) : state :=
   let st0 := compute_strides s0 in
   let d1 := if buffer_resizable (bk k) && negb (Z.of_nat (length d0) =? product s0)
             then lresize dflt d0 (Z.to_nat (product s0)) else d0 in
-  mkState k L s0 st0 (offset_of (sk k) L s0 st0) d1.
+  mkState k L s0 st0 (offset_of L s0 st0) d1.
 
 (* ndarray_t::resize, ndarray.hpp:61-184, statement by statement *)
 Definition resize (st : state) (sizes : list Z) : bool * state :=
@@ -141,7 +138,7 @@ Definition resize (st : state) (sizes : list Z) : bool * state :=
   if (match sk k with SClipped maxs => negb (late_clip_ok maxs sizes) | _ => false end) then (false, st1) else
   let shape2 := overwrite shape1 sizes in
   let strides2 := compute_strides shape2 in
-  (true, mkState k L shape2 strides2 (offset_of (sk k) L shape2 strides2) data1).
+  (true, mkState k L shape2 strides2 (offset_of L shape2 strides2) data1).
 
 (* base_ndarray_t::operator()(indices) = at(data_, offset_(indices)) *)
 Definition st_offset (st : state) (idx : list Z) : Z := compute_offset idx (snd (st_off st)).
@@ -229,12 +226,13 @@ Definition h_write (st : hstate) (idx : list Z) (x : A) : hstate :=
   mkH (h_max st) (h_dim st) (h_shape st) (h_strides st)
       (upd (h_buf st) (Z.to_nat (compute_offset (h_strides st) idx)) x).
 
-(* dynamic_ndarray<T> (dynamic.hpp:36-211): resize never refuses *)
+(* dynamic_ndarray<T> (dynamic.hpp:36-212): resize never refuses *)
 Record dstate := mkD { d_shape : list Z; d_strides : list Z; d_numel : option Z; d_data : list A }.
-Definition d_init : dstate := mkD [] [] None [].      (* dynamic_ndarray() {} : numel_ not initialised *)
 Definition d_resize (st : dstate) (sizes : list Z) : dstate :=
   let numel := fold_left Z.mul sizes 1 in
   mkD sizes (map (stride sizes) (seq 0 (length sizes))) (Some numel) (lresize dflt (d_data st) (Z.to_nat numel)).
+(* dynamic_ndarray() { resize(shape_type{}); } : the 0-dim array with one element *)
+Definition d_init : dstate := d_resize (mkD [] [] None []) [].
 Definition d_get (st : dstate) (idx : list Z) : option A :=
   nth_error (d_data st) (Z.to_nat (compute_offset (d_strides st) idx)).
 Definition d_write (st : dstate) (idx : list Z) (x : A) : dstate :=
